@@ -367,7 +367,7 @@ def check_c02(chk, rng):
     # schedule tables of every live graph at the end of every root cycle (SlotTrace.tla): the root's cached next time
     # covers every pending entry, the next cycle comes no later than it
     import slotcheck
-    slotcheck.run(chk, "C02", rng, 100 if chk.tier == "quick" else 2000, ("C02.",))
+    slotcheck.run(chk, "C02", rng, 240 if chk.tier == "quick" else 2000, ("C02.",))
     chk.coverage["rule"] = ("random programs rich in wake-ups (scripted sources scheduling one-at-a-time or all at start, timers, "
                             "tagged delays that replace their pending time, inside nested children at depth 1-2), start in {1,2,3}, end before / "
                             "after the last request; distinct = distinct scenario text")
@@ -997,7 +997,7 @@ def check_keyed_references(chk, rng):
     contents - validated by spec/RefDictTrace.tla"""
     import check_ops
     scns = []
-    for k in range(120 if chk.tier == "quick" else 2000):
+    for k in range(240 if chk.tier == "quick" else 2000):
         horizon = rng.choice([6, 8])
         h1 = check_ops.dict_history(rng, [1, 2, 3, 4], horizon, maxops=3)
         h2 = check_ops.dict_history(rng, [2, 3, 4, 5], horizon, maxops=3)
@@ -1042,7 +1042,7 @@ def check_keyed_references(chk, rng):
 
 
 def check_c13(chk, rng):
-    n = 300 if chk.tier == "quick" else 4000
+    n = 500 if chk.tier == "quick" else 4000
     progs = [ref_program(rng, i + 1, rng.choice([6, 7, 9])) for i in range(n)]
     preds, res = dfcheck.predict(progs, tag="c13")
     chk.add_tlc(res, "references")
